@@ -53,7 +53,8 @@ def run(ctx):
     concrete = [d for d in dis if d.get("kind") == "disagreement" and not d["holds_on_impl"]]
     others = [d for d in dis if d not in concrete]
     recorded = 0
-    for d in concrete[:50]:
+    for d in concrete:
+        if recorded >= 50: break      # cap on RECORDED violations: hits of known findings must not use it up
         op = d["op"]
         sig = "%s %s => %s" % (op.split(" ")[0], op.split(" ")[1] if " " in op else "", d["impl"])
         recorded += bool(ctx.violation({"kind": "input", "input": op, "actual": d["impl"], "expected": d["model"],
